@@ -17,6 +17,7 @@ import (
 	"sort"
 	"strings"
 	"sync"
+	"sync/atomic"
 	"testing"
 	"time"
 
@@ -1239,8 +1240,34 @@ func TestVerifRaceGME(t *testing.T) {
 				time.Sleep(200 * time.Microsecond)
 			}
 		}()
+		// Close() while RPCs are still being issued (half of the runs): callers
+		// racing a shutdown may fail, but nothing may race or crash
+		lateClose := idx%2 == 1
+		var wg2 sync.WaitGroup
+		stopLate := int32(0)
+		if lateClose {
+			for g := 0; g < 3; g++ {
+				wg2.Add(1)
+				go func(g int) {
+					defer wg2.Done()
+					defer func() { recover() }()
+					for atomic.LoadInt32(&stopLate) == 0 {
+						ctx, cancel := context.WithTimeout(context.Background(), 50*time.Millisecond)
+						var outv wrapperspb.StringValue
+						gme.Invoke(ctx, "/verif.S/Echo", wrapperspb.String("hi"), &outv)
+						cancel()
+					}
+				}(g)
+			}
+		}
 		wg.Wait()
 		gme.Close()
+		if lateClose {
+			time.Sleep(20 * time.Millisecond)
+			atomic.StoreInt32(&stopLate, 1)
+			wg2.Wait()
+			out.hit("C10.gme-close-during-rpcs")
+		}
 		w.stopServers()
 		var nr, nok int64
 		for g := range rpcs {
